@@ -178,6 +178,40 @@ fn apply_prefix(journal: &[String], blob: &mut std::fs::File, k: usize, root: &s
     }
 }
 
+/// known finding F30: between the unlink of a later log file and the next catalogue write, once an earlier log file
+/// has been written to (the cut), the catalogue on disk is stale. `win=xcut` marks the crash points inside that window.
+fn in_cut_window(lines: &[String], k: usize) -> bool {
+    fn log_id(name: &str) -> Option<u64> {
+        name.strip_prefix("log_").and_then(|x| x.parse().ok())
+    }
+    let mut unlinked: Option<u64> = None;
+    let mut cut_written = false;
+    for l in lines.iter().take(k) {
+        let w: Vec<&str> = l.split_whitespace().collect();
+        match w.as_slice() {
+            ["U", name] => {
+                if let Some(a) = log_id(name) {
+                    unlinked = Some(unlinked.map_or(a, |u| u.min(a)));
+                    cut_written = false;
+                }
+            }
+            ["W", name, ..] if *name == "index" => {
+                unlinked = None;
+                cut_written = false;
+            }
+            ["W", name, ..] => {
+                if let (Some(b), Some(a)) = (log_id(name), unlinked) {
+                    if b < a {
+                        cut_written = true;
+                    }
+                }
+            }
+            _ => {}
+        }
+    }
+    unlinked.is_some() && cut_written
+}
+
 pub fn run() {
     let mut cur: Option<Journaled> = None;
     let work = tempfile::tempdir().unwrap();
@@ -252,7 +286,8 @@ pub fn run() {
                         Ok(o) => String::from_utf8_lossy(&o.stdout).trim().to_string(),
                         Err(_) => "open=spawnerr".to_string(),
                     };
-                    parts.push(format!("k={} {} {}", k, if k > 0 { lines[k - 1].clone().replace(' ', "_") } else { "-".to_string() }, res));
+                    parts.push(format!("k={} {} win={} {}", k, if k > 0 { lines[k - 1].clone().replace(' ', "_") } else { "-".to_string() },
+                        if in_cut_window(&lines, k) { "xcut" } else { "-" }, res));
                 }
                 format!("enum n={} | {}", lines.len() + 1, parts.join(" | "))
             }
@@ -309,7 +344,7 @@ pub fn run() {
                     };
                     let res = if res.is_empty() { "open=crashed".to_string() } else { res };
                     // consecutive identical recoveries are reported once (with the range of prefixes)
-                    let key = format!("acks={} begun={} settled={} {}", acks, begun, settled, res);
+                    let key = format!("acks={} begun={} settled={} win={} {}", acks, begun, settled, if in_cut_window(&lines, k) { "xcut" } else { "-" }, res);
                     if key != last_seen {
                         parts.push(format!("k={} {}", k, key));
                         last_seen = key;
